@@ -11,33 +11,6 @@ From CGV Require Import Base.PyBase Base.PyVal Base.NxGraph Dialect.DialectImpl
 Import ListNotations.
 
 (** ** the flat form of an AST with branch multipliers *)
-Definition bnode_of (it : item) : bnode := {| bn_name := i_name it; bn_mult := i_mult it; bn_bond := i_bond it |}.
-Definition simple_chain (c : list item) : bool := forallb (fun it => is_nil (i_rings it) && is_nil (i_branches it)) c.
-Definition g2add_close (a : option sym) (s : g2seg) : g2seg :=
-  match s with G2Plain x => G2Plain (xadd_close a x) | G2Unit u cs => G2Unit u (cs ++ [a]) end.
-Definition g2set_open (s : g2seg) : g2seg := match s with G2Plain x => G2Plain (xset_open x) | G2Unit _ _ => s end.
-Definition g2wrap (a : option sym) (l : list g2seg) : list g2seg :=
-  match l with
-  | [] => []
-  | x :: t => match rev (g2set_open x :: t) with [] => [] | z :: r => rev (g2add_close a z :: r) end
-  end.
-Definition mk_unit (n : pystr) (pending : option sym) (c : list item) (ms : option sym) (ds : list nat) (a : option sym) : unit_t :=
-  {| u_name := n; u_mult := None; u_bond := pending; u_body := map bnode_of c; u_ms := ms; u_count := ds; u_after := a |}.
-Fixpoint g_item (it : item) : list g2seg :=
-  match it with
-  | Item n r m b brs =>
-      G2Plain (node_x n r m b) ::
-      (fix go (brs : list branch) (pending : option sym) : list g2seg :=
-         match brs with
-         | [] => []
-         | Branch c bm a :: tl =>
-             match bm with
-             | None => g2wrap a (flat_map g_item c) ++ go tl a
-             | Some (ms, ds) => G2Unit (mk_unit n pending c ms ds a) [] :: go tl a
-             end
-         end) brs b
-  end.
-Definition g_chain (c : chain) : list g2seg := flat_map g_item c.
 (** the branches of one anchor, [pending] = symbol in front of the next "(" *)
 Fixpoint g_branches (n : pystr) (brs : list branch) (pending : option sym) : list g2seg :=
   match brs with
@@ -57,21 +30,6 @@ Qed.
 (** the shape the flat form can express: every branch chain is non-empty; a branch that carries a multiplier
     is a simple chain (no ring marker, no nested branch); the anchor of a branch multiplied by n >= 2
     carries no ring marker when that branch is its first one *)
-Fixpoint shape_item (it : item) : bool :=
-  match it with
-  | Item n r m b brs =>
-      (fix go (brs : list branch) (first : bool) : bool :=
-         match brs with
-         | [] => true
-         | Branch c bm a :: tl =>
-             negb (is_nil c)
-             && match bm with
-                | None => forallb shape_item c
-                | Some (_, ds) => simple_chain c && ((digits_nat ds <=? 1)%nat || negb first || is_nil r)
-                end
-             && go tl false
-         end) brs true
-  end.
 Fixpoint shape_branches (r : list (option sym * marker)) (brs : list branch) (first : bool) : bool :=
   match brs with
   | [] => true
@@ -100,8 +58,6 @@ Proof.
   { induction brs as [|[c bm a] tl IH]; intros f; [reflexivity|]. cbn [shape_branches]. rewrite <- IH. reflexivity. }
   apply H.
 Qed.
-Definition units_ok (fo : float_oracle) (a : chain) : bool :=
-  negb (is_nil a) && forallb shape_item a && g2segs_ok fo (g_chain a).
 
 (** ** text and tokens of the flat form *)
 Lemma g2segs_str_app a b : g2segs_str (a ++ b) = g2segs_str a ++ g2segs_str b.
